@@ -15,4 +15,10 @@ REG = {
  'C16': dict(cat='exploration', tech='exhaustive API grid monitor (set/get/bounds relations, full get-vector before/after) + frame-field inspection with the reference decoder over random accepted parameter sets',
              text='all 38 cParameters and 7 dParameters x 10 boundary values x stages (fresh, after frame, after error, resets, mid-frame ST/MT) on CCtx, CCtxParams, DCtx and static CCtx (exhaustive), then random valid sets x frames x resets x simple-API pairs',
              note='documented normalisations encoded as allowed outcomes; ' + R, ref='DESIGN.md section 4 C16'),
+ 'C12': dict(cat='exploration', tech='schedule exploration with a serialising seeded scheduler (link-time --wrap of pthread primitives, POSIX condvar model, uniform + PCT) with per-job history oracle, plus TSan/ASan stress',
+             text='client programs from the {add, tryAdd, joinJobs, resize, nested post} grammar x pools 1..3 threads x queue 0..2, each under hundreds of replayable schedules incl. any-one-waiter signal delivery and spurious wake-ups; verdicts: exactly-once per unique job id, tryAdd refusal, joinJobs postcondition by logical stamps, deadlock = no runnable thread, live workers after POOL_free; TSan data races; ASan use-after-free',
+             note='shim model of POSIX semantics; scheduling points are pthread calls only; schedules sampled not enumerated', ref='DESIGN.md section 4 C12 / 2.5'),
+ 'C17': dict(cat='exploration', tech='round-trip oracle (library decoder + reference decoder) over parses from an independent LZ parser / extracted parses / registered producers, and an independent restatement of the documented structural rules deciding which corrupted lists must be refused, under ASan/UBSan',
+             text='positive half: valid parses (both delimiter modes, minMatch 3..7, dict/prefix, matches crossing block limits, long matches) must compress and decode to the source; negative half: in-scope structural corruptions must be rejected with validateSequences=1 and arbitrary arrays must be memory-safe; producer failure handling per fallback setting',
+             note=R + SAN + 'scope decisions in DESIGN.md (delimiter-free lists overrunning the source are out of scope)', ref='DESIGN.md section 4 C17'),
 }
